@@ -165,8 +165,14 @@ def main(argv):
         reasons.append("no shard completed")
     if rep.evaluations == 0:
         reasons.append("no case evaluated")
-    if len(failures) > max(1, nshards // 4):
-        reasons.append(f"{len(failures)}/{nshards} shards failed: {failures[:2]}")
+    crashed = [m for m in rep.inconclusive if str(m).startswith("shard crashed")]
+    if crashed:
+        # an exception escaped run_shard: that shard's remaining workload never ran
+        reasons.append(f"{len(crashed)} shard(s) crashed in the harness: {crashed[0][-400:]}")
+    if failures:
+        # a shard that was killed / timed out (after one retry for non-watchdog exits) ran none
+        # or only part of its workload: never folded into "held"
+        reasons.append(f"{len(failures)}/{nshards} shards failed: {[str(f)[:300] for f in failures[:2]]}")
 
     coverage = {
         "evaluations": rep.evaluations,
